@@ -1221,7 +1221,7 @@ func (mgr *Manager) UpdateTag(name string, operation UpdateTagOperation) error {
 				return errors.New("self reference not allowed in tags")
 			}
 		}
-		if strings.HasPrefix(name, "mark/") {
+		if _, _, isMark := parseTagName(name); isMark {
 			if _, ok := q.Conditions.StreamIDs(0); !ok {
 				return errors.New("tags of type `mark` have to only contain an `id` filter")
 			}
